@@ -1240,3 +1240,70 @@ Proof.
   { apply existsb_exists. exists s. split; [exact Hs1|]. apply existsb_exists. exists s. split; [exact Hs2 | apply String.eqb_refl]. }
   rewrite E. reflexivity.
 Qed.
+
+(* ------------------------------------------------------------------ caches, basis sizes, propagator times *)
+Theorem cache_control_matrix_spec n_nops n_basis n_omega :
+  validate_cache_control_matrix None n_nops n_basis n_omega = ok /\
+  (forall g, validate_cache_control_matrix (Some [n_nops; n_basis; n_omega]) n_nops n_basis n_omega = ok /\
+             validate_cache_control_matrix (Some [g; n_nops; n_basis; n_omega]) n_nops n_basis n_omega = ok) /\
+  (* a wrong size on any of the three axes *)
+  (forall a b c, (a, b, c) <> (n_nops, n_basis, n_omega) ->
+     validate_cache_control_matrix (Some [a; b; c]) n_nops n_basis n_omega = Raise ValueError /\
+     forall g, validate_cache_control_matrix (Some [g; a; b; c]) n_nops n_basis n_omega = Raise ValueError) /\
+  (forall s, length s <> 3 -> length s <> 4 -> validate_cache_control_matrix (Some s) n_nops n_basis n_omega = Raise ValueError).
+Proof.
+  unfold validate_cache_control_matrix, lastn, shape_eqb. repeat split; intros; cbn; rewrite ?Nat.eqb_refl; try reflexivity.
+  - destruct (a =? n_nops) eqn:E1, (b =? n_basis) eqn:E2, (c =? n_omega) eqn:E3; try reflexivity.
+    apply Nat.eqb_eq in E1, E2, E3. subst. congruence.
+  - destruct (a =? n_nops) eqn:E1, (b =? n_basis) eqn:E2, (c =? n_omega) eqn:E3; try reflexivity.
+    apply Nat.eqb_eq in E1, E2, E3. subst. congruence.
+  - apply Nat.eqb_neq in H, H0. rewrite H, H0. reflexivity.
+Qed.
+
+Theorem cache_total_phases_spec n_omega :
+  validate_cache_total_phases None n_omega = ok /\ validate_cache_total_phases (Some [n_omega]) n_omega = ok /\
+  (forall m, m <> n_omega -> validate_cache_total_phases (Some [m]) n_omega = Raise ValueError) /\
+  (forall s, length s <> 1 -> validate_cache_total_phases (Some s) n_omega = Raise ValueError).
+Proof.
+  unfold validate_cache_total_phases, shape_eqb. repeat split; intros; cbn; rewrite ?Nat.eqb_refl; try reflexivity.
+  - apply Nat.eqb_neq in H. rewrite H. reflexivity.
+  - apply Nat.eqb_neq in H. rewrite H. reflexivity.
+Qed.
+
+Theorem cache_filter_function_spec which order n b o : In which ["fidelity"; "generalized"]%string -> order = 1 \/ order = 2 ->
+  let expected := if (order =? 1) && String.eqb which "fidelity" then [n; n; o] else [n; n; b; b; o] in
+  validate_cache_filter_function None which order n b o = ok /\
+  validate_cache_filter_function (Some expected) which order n b o = ok /\
+  (forall s, s <> expected -> validate_cache_filter_function (Some s) which order n b o = Raise ValueError).
+Proof.
+  intros Hw Ho expected. unfold validate_cache_filter_function.
+  rewrite (proj2 (validate_option_spec _ _) Hw). cbn [bind].
+  assert (O : (order =? 1) || (order =? 2) = true) by (destruct Ho; subst; reflexivity). rewrite O. cbn [check bind].
+  fold expected. repeat split.
+  - rewrite shape_eqb_refl. reflexivity.
+  - intros s Hs. destruct (shape_eqb s expected) eqn:E; [|reflexivity]. exfalso. apply Hs.
+    unfold shape_eqb in E. apply (len_all2_eq_iff Nat.eqb Nat.eqb_eq). exact E.
+Qed.
+
+Theorem basis_size_spec n : ((1 <= n)%Z -> validate_basis_size n = ok) /\ ((n < 1)%Z -> validate_basis_size n = Raise ValueError).
+Proof.
+  unfold validate_basis_size. split; intros H.
+  - replace (1 <=? n)%Z with true by (symmetry; apply Z.leb_le; exact H). reflexivity.
+  - replace (1 <=? n)%Z with false by (symmetry; apply Z.leb_gt; exact H). reflexivity.
+Qed.
+
+(* a time beyond the duration at any position of t *)
+Theorem propagator_times_spec l : (Forall (fun b => b = false) l -> validate_propagator_times l = ok) /\
+  (forall i, i < length l -> validate_propagator_times (upd l i true) = Raise ValueError).
+Proof.
+  unfold validate_propagator_times. split.
+  - intros H. assert (E : existsb (fun b => b) l = false).
+    { induction H as [|x l Hx _ IH]; simpl; auto. subst. exact IH. }
+    rewrite E. reflexivity.
+  - intros i Hi. assert (E : existsb (fun b => b) (upd l i true) = true).
+    { apply existsb_exists. exists true. split; [|reflexivity].
+      pose proof (nth_upd_same l i true false Hi) as N.
+      assert (X : In (nth i (upd l i true) false) (upd l i true)) by (apply nth_In; rewrite upd_len; exact Hi).
+      rewrite N in X. exact X. }
+    rewrite E. reflexivity.
+Qed.
